@@ -42,6 +42,10 @@ func c10BinAlphabet() []wStep {
 		{Bin: func() *hapi.Cmd { c := U(0, 1, 2); return &c }()},
 		{Bin: func() *hapi.Cmd { c := hapi.Cmd{Type: 2, Key: 1, Id: 2, Flag: 0x02}; return &c }()},
 		{Bin: func() *hapi.Cmd { c := hapi.Cmd{Type: 2, Key: 2, Id: 9, Flag: 0x01}; return &c }()},
+		// concurrent-check flag: a non-leader may look at its replica for requests that would be refused at once, but a
+		// request willing to wait belongs to the leader's queue; with and without the wait-when-unlocked flag
+		{Bin: z(func() hapi.Cmd { c := L(0, 1, 4, 2, 10, 0, 0); c.Flag = 0x08; return c }())},
+		{Bin: z(func() hapi.Cmd { c := L(0, 1, 5, 0, 10, 0, 0); c.Flag = 0x08; return c }())},
 		{Tick: 1 * sec},
 	}
 }
@@ -659,6 +663,9 @@ func runNoLeader(steps []wStep, text bool, state int) (msg string, err string) {
 				case "GET", "EXISTS", "STRLEN", "TYPE", "TTL", "PTTL", "KEYS", "SCAN", "PING":
 					continue // reads are served from the node's own replica: nothing is granted, queued or released
 				}
+			}
+			if si < len(steps) && steps[si].Bin != nil && steps[si].Bin.Flag&0x08 != 0 && steps[si].Bin.Timeout == 0 && len(r) == 1 && strings.Contains(r[0], "TIMEOUT") {
+				continue // concurrent-check request that does not want to wait: refused from the replica (nothing granted, queued or released)
 			}
 			for _, x := range r {
 				ok := strings.Contains(x, "STATE_ERROR") || strings.HasPrefix(x, "-") || x == "<closed>" || strings.HasPrefix(x, "r238=") || x == "+PONG" // ping replies
